@@ -18,6 +18,7 @@ TRUSTED = ["Lean 4.33 kernel + Mathlib", "tracer: the REAL _SdeintAdjointMethod.
 
 def run(rep, tier, seed):
     flow.run_gen(rep, {'AdjLoop'}, seed, 6 if tier == 'quick' else 40)
+    flow.run_selftest(rep, seed, 30 if tier == 'quick' else 300)
     flow.run_proofs(rep, PROOFS, extra_scan=['Tsv.Gen.AdjLoop'])
     rng = random.Random(seed)
     fails, st = core.safe(osde.c09_search, rng, 40 if tier == 'quick' else 600)
@@ -27,7 +28,7 @@ def run(rep, tier, seed):
                    rule="(a) random smooth SDE x solver x noise x sizes x ts x adjoint method: sdeint_adjoint's values torch.equal sdeint's; "
                         "(b) geometric Brownian motion with parameters, every accepted (sde type, noise type, method, adjoint method) at "
                         "d=m=1 in random order: relative error of the adjoint gradient w.r.t. (y0, a, b) against the closed-form gradient on the "
-                        "same 64 paths at dt = 2^-3, 2^-5, 2^-7 must shrink (x0.6) or be < 2e-3; (c) adjoint_params subsets, frozen "
+                        "same 64 paths: the mean error at dt = 2^-9, 2^-10 must be below max(8 %, 0.6 x the error at dt = 2^-3); (c) adjoint_params subsets, frozen "
                         "parameters, y0 without grad: only the tensors asked for receive gradients")
     rep._f = fails
     return flow.conclude(rep, lambda r, b: r._f or osde.c09_search(random.Random(r.seed + 9), 300)[0],
